@@ -27,7 +27,9 @@ const N: usize = 10;
 const NN: usize = 6; // native denoms come first
 const IBC: &str = "ibc/27394FB092D2ECCD56123C74F36E4C1F926001CEADA9CA97EA622B25F41E5EB2";
 const FACTA: &str = "factory/migaloo1erul6xyq0gk6ws98ncj7lnq9l4jn4gnnu9we73gdz78yyl2lr7qqrvcgup/ulongsubdenom";
-const FACTB: &str = "factory/migaloo1erul6xyq0gk6ws98ncj7lnq9l4jn4gnnu9we73gdz78yyl2lr7qqrvcgup/uabc";
+/// the second token-factory denom of the core differs from the first ONLY IN LETTER CASE (denoms are case-sensitive:
+/// two assets; seed C19-R: a pair key built by a case-insensitive sort depends on the order the assets are named in)
+const FACTB: &str = "factory/migaloo1erul6xyq0gk6ws98ncj7lnq9l4jn4gnnu9we73gdz78yyl2lr7qqrvcgup/uLONGSUBDENOM";
 /// the last core denom spells the ADDRESS of the first core cw20 token (`contract0`): same text, other kind
 const DENOMS: [&str; NN] = ["uwhale", "uusdc", IBC, FACTA, FACTB, "contract0"];
 /// decimals the generator registers for the native denoms in the scenarios that swap
